@@ -54,6 +54,44 @@ type MigCase struct {
 	// ModuleDirs are the directories of the original modules ("." for layout 0).
 	ModuleDirs []string `json:"module_dirs"`
 	Key        string   `json:"-"`
+	// Grammar is "" for the workspace grammar of migDims and "deps" for the dependency-merge worlds
+	// of migdeps.go (the replay needs to know which grammar the feature vector belongs to).
+	Grammar string `json:"grammar,omitempty"`
+	// What the generator wrote into the v1 configuration files about dependencies (reference data
+	// of the dependency oracle, recorded at generation time, not read back through buf).
+	Names map[string]string `json:"module_names,omitempty"` // module dir -> name
+	Decl  []declDep         `json:"declared_deps,omitempty"`
+	Pins  []pinDep          `json:"pinned_deps,omitempty"`
+	// Roles optionally overrides the structural role of each module used in signatures.
+	Roles []string `json:"-"`
+	// StandaloneModules: there is no buf.work.yaml; every module directory is its own v1 workspace
+	// before migration (they are migrated together into one v2 workspace).
+	StandaloneModules bool `json:"standalone_modules,omitempty"`
+	// RefTie: two different refs of one dependency are declared and resolve to the same commit, so
+	// which of them the migrator writes is not determined (the second migration run is not compared).
+	RefTie bool `json:"-"`
+}
+
+// declDep is one entry of a `deps:` list of a v1/v1beta1 buf.yaml.
+type declDep struct {
+	Dir  string `json:"dir"`
+	Name string `json:"name"`
+	Ref  string `json:"ref,omitempty"`
+}
+
+// pinDep is one entry of a v1 buf.lock.
+type pinDep struct {
+	Dir    string `json:"dir"`
+	Name   string `json:"name"`
+	Commit string `json:"commit"` // dashless
+}
+
+// kind is the "kind" of the evidence case objects (selects the grammar on replay).
+func (c MigCase) kind() string {
+	if c.Grammar == "deps" {
+		return "migration-deps"
+	}
+	return "migration"
 }
 
 const protoA = `syntax = "proto3";
@@ -437,6 +475,7 @@ func buildMigCase(dims []Dim, ix dimIndex, v []int, deps *migDeps) (MigCase, boo
 	}
 	if ix.val(v, "a.name") == 1 {
 		aYAML["name"] = "buf.build/acme/moda"
+		c.Names = map[string]string{aDir: "buf.build/acme/moda"}
 	}
 	if s := lintSection(ix.val(v, "a.lint")); s != nil {
 		aYAML["lint"] = s
@@ -452,6 +491,8 @@ func buildMigCase(dims []Dim, ix dimIndex, v []int, deps *migDeps) (MigCase, boo
 			"commit": uuidutil.ToDashless(deps.commit), "digest": deps.b4,
 		}}}
 		both(aDir, "buf.lock", "# Generated by buf. DO NOT EDIT.\n"+EmitYAML(lock))
+		c.Decl = append(c.Decl, declDep{Dir: aDir, Name: depName})
+		c.Pins = append(c.Pins, pinDep{Dir: aDir, Name: depName, Commit: uuidutil.ToDashless(deps.commit)})
 	}
 	both(aDir, "buf.yaml", EmitYAML(aYAML))
 	c.ModuleDirs = []string{aDir}
@@ -472,6 +513,10 @@ func buildMigCase(dims []Dim, ix dimIndex, v []int, deps *migDeps) (MigCase, boo
 			}
 			if ix.val(v, "b.name") == 1 {
 				bYAML["name"] = "buf.build/acme/modb"
+				if c.Names == nil {
+					c.Names = map[string]string{}
+				}
+				c.Names[bDir] = "buf.build/acme/modb"
 			}
 			if s := bLintSection(ix.val(v, "b.lint")); s != nil {
 				bYAML["lint"] = s
@@ -488,9 +533,12 @@ func buildMigCase(dims []Dim, ix dimIndex, v []int, deps *migDeps) (MigCase, boo
 					"commit": uuidutil.ToDashless(deps.commit), "digest": deps.b4,
 				}}}
 				both(bDir, "buf.lock", "# Generated by buf. DO NOT EDIT.\n"+EmitYAML(lock))
+				c.Decl = append(c.Decl, declDep{Dir: bDir, Name: depName})
+				c.Pins = append(c.Pins, pinDep{Dir: bDir, Name: depName, Commit: uuidutil.ToDashless(deps.commit)})
 			case 2:
 				// a dependency on a module of the same workspace (only meaningful when A is named)
 				bYAML["deps"] = list("buf.build/acme/moda")
+				c.Decl = append(c.Decl, declDep{Dir: bDir, Name: "buf.build/acme/moda"})
 			}
 			both(bDir, "buf.yaml", EmitYAML(bYAML))
 		}
@@ -523,6 +571,8 @@ type migDeps struct {
 	commit uuid.UUID
 	b4     string
 	prov   bufx.Providers
+	// mods: commit and b4 digest per remote module (dependency-merge worlds, migdeps.go)
+	mods map[string]depMod
 }
 
 func newMigDeps() (*migDeps, error) {
@@ -581,7 +631,25 @@ func bucketFiles(ctx context.Context, b storage.ReadBucket) (map[string]string, 
 // viewWorkspace builds every target module of the workspace in the bucket the way `buf lint` /
 // `buf breaking` do (one image per module, the other modules as imports).
 func viewWorkspace(ctx context.Context, bucket storage.ReadBucket, deps *migDeps) ([]*modView, bufworkspace.Workspace, error) {
-	ws, err := bufx.Workspace(ctx, bucket, ".", nil, nil, deps.prov)
+	return viewWorkspaceAt(ctx, bucket, ".", deps)
+}
+
+// viewStandalone views every module directory as its own workspace (no buf.work.yaml: this is what
+// `buf build <dir>` / `buf lint <dir>` see before several module directories are migrated together).
+func viewStandalone(ctx context.Context, bucket storage.ReadBucket, dirs []string, deps *migDeps) ([]*modView, error) {
+	var out []*modView
+	for _, dir := range dirs {
+		views, _, err := viewWorkspaceAt(ctx, bucket, dir, deps)
+		if err != nil {
+			return nil, fmt.Errorf("%s: %w", dir, err)
+		}
+		out = append(out, views...)
+	}
+	return out, nil
+}
+
+func viewWorkspaceAt(ctx context.Context, bucket storage.ReadBucket, subDir string, deps *migDeps) ([]*modView, bufworkspace.Workspace, error) {
+	ws, err := bufx.Workspace(ctx, bucket, subDir, nil, nil, deps.prov)
 	if err != nil {
 		return nil, nil, fmt.Errorf("workspace: %w", err)
 	}
@@ -769,7 +837,7 @@ func runMigration(r *evid.Run) {
 		c := cases[i]
 		r.Eval(1)
 		migrateOne(r, c, deps, cov, skips, i%8 == 0)
-		r.SampleEvery(i, 499, func() any { return m{"kind": "migration", "case": c} })
+		r.SampleEvery(i, 499, func() any { return m{"kind": c.kind(), "case": c} })
 	})
 	snap := cov.snapshot()
 	r.Set("migration_coverage", snap)
@@ -795,7 +863,13 @@ func migrateOne(r sink, c MigCase, deps *migDeps, cov, skips *counter, full bool
 	// ---- before: both states must build, lint and breaking must run (the configuration is valid)
 	var before [2]map[string][]*modView // 0 old, 1 new (edited copy)
 	for k, files := range []map[string]string{c.Old, c.New} {
-		views, _, err := viewWorkspace(ctx, bufx.MemBucket(files), deps)
+		var views []*modView
+		var err error
+		if c.StandaloneModules {
+			views, err = viewStandalone(ctx, bufx.MemBucket(files), c.ModuleDirs, deps)
+		} else {
+			views, _, err = viewWorkspace(ctx, bufx.MemBucket(files), deps)
+		}
 		if err != nil {
 			skip("workspace before: " + shorten(err.Error()))
 			return
@@ -828,9 +902,23 @@ func migrateOne(r sink, c MigCase, deps *migDeps, cov, skips *counter, full bool
 			return nil, false
 		}
 		migrator := bufmigrate.NewMigrator(bufx.Logger, deps.omni, deps.omni)
-		if err := bufmigrate.MigrateAll(ctx, migrator, bucket, nil); err != nil {
+		err = func() (err error) {
+			// a panic of the migrator is a finding about the workspace, not the end of the exploration
+			defer func() {
+				if p := recover(); p != nil {
+					err = panicError{fmt.Sprint(p)}
+				}
+			}()
+			return bufmigrate.MigrateAll(ctx, migrator, bucket, nil)
+		}()
+		if pe, ok := err.(panicError); ok {
+			r.Violate("migrate/panic/"+panicClass(pe.msg),
+				"the migrator panics on a workspace that builds, lints and breaking-checks without error: "+pe.msg, m{"kind": c.kind(), "case": c})
+			return nil, false
+		}
+		if err != nil {
 			r.Violate("migrate/error/"+errClass(err.Error()),
-				"a workspace that builds, lints and breaking-checks without error is rejected by the migrator: "+err.Error(), m{"kind": "migration", "case": c})
+				"a workspace that builds, lints and breaking-checks without error is rejected by the migrator: "+err.Error(), m{"kind": c.kind(), "case": c})
 			return nil, false
 		}
 		after, err := bucketFiles(ctx, bucket)
@@ -846,7 +934,7 @@ func migrateOne(r sink, c MigCase, deps *migDeps, cov, skips *counter, full bool
 		return
 	}
 	migrated := configFiles(afterFiles[0])
-	if full {
+	if full && !c.RefTie {
 		if afterFiles[1], ok = migrate(c.New); !ok {
 			return
 		}
@@ -872,26 +960,33 @@ func migrateOne(r sink, c MigCase, deps *migDeps, cov, skips *counter, full bool
 	for p := range afterFiles[0] {
 		base := p[strings.LastIndex(p, "/")+1:]
 		if base == "buf.work.yaml" || (base == "buf.yaml" && p != "buf.yaml") || (base == "buf.lock" && p != "buf.lock") {
-			r.Violate("migrate/leftover/"+base, "a v1 configuration file is still present after migration: "+p, m{"kind": "migration", "case": c, "migrated": migrated})
+			r.Violate("migrate/leftover/"+base, "a v1 configuration file is still present after migration: "+p, m{"kind": c.kind(), "case": c, "migrated": migrated})
 		}
 	}
 	var after [2]map[string][]*modView
 	for k := range afterFiles {
 		views, _, err := viewWorkspace(ctx, bufx.MemBucket(afterFiles[k]), deps)
 		if err != nil {
-			r.Violate("migrate/workspace-after/"+errClass(err.Error()), "the migrated workspace does not build: "+err.Error(), m{"kind": "migration", "case": c, "migrated": migrated})
+			r.Violate("migrate/workspace-after/"+errClass(err.Error()), "the migrated workspace does not build: "+err.Error(), m{"kind": c.kind(), "case": c, "migrated": migrated})
 			return
 		}
 		grouped, orphans := groupByOriginal(views, c.ModuleDirs)
 		if len(orphans) > 0 {
-			r.Violate("migrate/modules/unexpected-module", fmt.Sprintf("modules outside the original module directories after migration: %v", orphans), m{"kind": "migration", "case": c, "migrated": migrated})
+			r.Violate("migrate/modules/unexpected-module", fmt.Sprintf("modules outside the original module directories after migration: %v", orphans), m{"kind": c.kind(), "case": c, "migrated": migrated})
 			return
 		}
 		after[k] = grouped
 	}
 	cov.add("migrated", 1)
-	r.Distinct("migrate|" + c.Key)
-	countMigClauses(cov, c, afterFiles[0])
+	if c.Grammar == "" {
+		r.Distinct("migrate|" + c.Key)
+	} else {
+		r.Distinct("migrate-" + c.Grammar + "|" + c.Key)
+	}
+	if c.Grammar == "" {
+		countMigClauses(cov, c, afterFiles[0])
+	}
+	checkMigratedDeps(r, c, afterFiles[0], migrated, cov)
 
 	for di, dir := range c.ModuleDirs {
 		// structural role of the module, used in signatures
@@ -901,6 +996,9 @@ func migrateOne(r sink, c MigCase, deps *migDeps, cov, skips *counter, full bool
 			role = "v1beta1-module"
 		case di == 1 && c.Vector["layout"] == 4:
 			role = "module-without-buf.yaml"
+		}
+		if di < len(c.Roles) {
+			role = c.Roles[di]
 		}
 		// 1. same file set, each file in exactly one module
 		bf, af := map[string]*descriptorpb.FileDescriptorProto{}, map[string]*descriptorpb.FileDescriptorProto{}
@@ -922,7 +1020,7 @@ func migrateOne(r sink, c MigCase, deps *migDeps, cov, skips *counter, full bool
 			cov.add("module_split_into_several", 1)
 		}
 		if dup != "" {
-			r.Violate("migrate/files/file-in-two-modules", "after migration file "+dup+" of module "+dir+" is built by two modules", m{"kind": "migration", "case": c, "migrated": migrated})
+			r.Violate("migrate/files/file-in-two-modules", "after migration file "+dup+" of module "+dir+" is built by two modules", m{"kind": c.kind(), "case": c, "migrated": migrated})
 		}
 		var missing, extra []string
 		for p := range bf {
@@ -942,7 +1040,7 @@ func migrateOne(r sink, c MigCase, deps *migDeps, cov, skips *counter, full bool
 			if len(missing) == 0 {
 				kind = "extra"
 			}
-			r.Violate("migrate/files/"+kind, fmt.Sprintf("module %s: files built before but not after %v, after but not before %v", dir, missing, extra), m{"kind": "migration", "case": c, "migrated": migrated})
+			r.Violate("migrate/files/"+kind, fmt.Sprintf("module %s: files built before but not after %v, after but not before %v", dir, missing, extra), m{"kind": c.kind(), "case": c, "migrated": migrated})
 		}
 		if len(bf) > 0 {
 			cov.add("file_sets_compared", 1)
@@ -952,7 +1050,7 @@ func migrateOne(r sink, c MigCase, deps *migDeps, cov, skips *counter, full bool
 			if ad, ok := af[p]; ok {
 				cov.add("descriptors_compared", 1)
 				if !proto.Equal(d, ad) {
-					r.Violate("migrate/descriptor/changed", "module "+dir+": descriptor of "+p+" differs after migration", m{"kind": "migration", "case": c, "migrated": migrated})
+					r.Violate("migrate/descriptor/changed", "module "+dir+": descriptor of "+p+" differs after migration", m{"kind": c.kind(), "case": c, "migrated": migrated})
 				}
 			}
 		}
@@ -990,14 +1088,14 @@ func reportCheckDiff(r sink, kind, role, dir string, before, after checkResult, 
 		if before.String() != after.String() {
 			r.Violate("migrate/"+kind+"/switched-off-check-enabled-by-migration",
 				fmt.Sprintf("module %s: %s was switched off for the module (ignore names the module itself, Disabled()==true) and is enabled after migration; results before %q after %q", dir, kind, clip(before.String()), clip(after.String())),
-				m{"kind": "migration", "case": c, "migrated": migrated, "before": before.String(), "after": after.String()})
+				m{"kind": c.kind(), "case": c, "migrated": migrated, "before": before.String(), "after": after.String()})
 		}
 		return
 	}
 	if after.err != "" {
 		r.Violate("migrate/"+kind+"/error-after/"+errClass(after.err),
 			fmt.Sprintf("module %s: %s worked before migration (%d annotations) and fails after it: %s", dir, kind, len(before.anns), after.err),
-			m{"kind": "migration", "case": c, "migrated": migrated, "before": before.String()})
+			m{"kind": c.kind(), "case": c, "migrated": migrated, "before": before.String()})
 		return
 	}
 	var lost, gained []string
@@ -1040,7 +1138,7 @@ func reportCheckDiff(r sink, kind, role, dir string, before, after checkResult, 
 	}
 	r.Violate(fmt.Sprintf("migrate/%s/%s/annotations-%s/%s", kind, role, dirn, strings.Join(idList, "+")),
 		fmt.Sprintf("module %s: %s results differ after migration: lost %v gained %v", dir, kind, lost, gained),
-		m{"kind": "migration", "case": c, "migrated": migrated, "before": before.String(), "after": after.String()})
+		m{"kind": c.kind(), "case": c, "migrated": migrated, "before": before.String(), "after": after.String()})
 }
 
 // disabledFlip reports whether some module's check config was Disabled() before migration while
@@ -1092,6 +1190,26 @@ func errClass(s string) string {
 		return "unknown-rule-id/" + id
 	}
 	return shorten(s)
+}
+
+type panicError struct{ msg string }
+
+func (p panicError) Error() string { return "panic: " + p.msg }
+
+// panicClass removes numbers and addresses from a panic message.
+func panicClass(s string) string {
+	var b strings.Builder
+	for _, r := range s {
+		if r >= '0' && r <= '9' {
+			continue
+		}
+		b.WriteRune(r)
+	}
+	out := strings.Join(strings.Fields(b.String()), " ")
+	if len(out) > 80 {
+		out = out[:80]
+	}
+	return out
 }
 
 func configFiles(files map[string]string) map[string]string {
